@@ -141,6 +141,9 @@ func govcCorpus() []govcSet {
 		{"error-in-a-grouping-defined-in-a-submodule-grouping", []string{
 			`module m { namespace "urn:m"; prefix m; include s; container top { uses sg2; } }`,
 			`submodule s { belongs-to m { prefix m; } grouping sg2 { uses sg1; } grouping sg1 { grouping inner { leaf x { type nosuchtype; } } leaf y { type string; } } }`}, true},
+		{"augment-through-an-implied-case-adds-a-choice-member", []string{
+			`module m { namespace "urn:m"; prefix m; container top { choice ch { container a { choice ch2 { leaf x { type string; } } } } } }`,
+			`module u { namespace "urn:u"; prefix u; import m { prefix m; } augment "/m:top/m:ch/m:a/m:a/m:ch2" { leaf late { type string; } container latec { leaf z { type string; } } } augment "/m:top/m:ch/m:a/m:a" { choice inner { leaf p { type string; } } } }`}, false},
 		{"deviation", []string{base,
 			`module dv { namespace "urn:dv"; prefix dv; import m { prefix m; } deviation "/m:c/m:gc/m:gll" { deviate add { min-elements 5; } } deviation "/m:d/m:gl" { deviate not-supported; } }`}, false},
 	}
